@@ -420,12 +420,14 @@ public:
     }
     // Check current block
     if (!head || offset + alignedSize > SourceHeap::AllocSize) {
-      size_t remaining = SourceHeap::AllocSize - offset;
+      size_t remaining = head ? SourceHeap::AllocSize - offset : 0;
       assert((remaining & (sizeof(double) - 1)) ==
              0); // should still be aligned
       if (!remaining) {
         refill();
-      } else {
+        remaining = SourceHeap::AllocSize - offset;
+      }
+      if (alignedSize > remaining) {
         alignedSize = remaining;
       }
     }
